@@ -5,9 +5,23 @@ PROPS = {
         title='Field arithmetic is exact modular arithmetic on every representation',
         design_ref='DESIGN.md section 4 / C14',
         vspecs=['contracts/C14/gl_core.vspec'],
+        level_text='Unbounded deductive proof (Verus/Z3) that each base-field kernel extracted from field/src/goldilocks_field.rs returns the '
+                   'mathematically correct residue for every 64/96/128/160-bit representation, with every unchecked `assume`, overflow, '
+                   'underflow and debug assertion turned into a discharged obligation. Proof is the right level: the failing operand '
+                   'patterns have probability ~2^-32 under sampling.',
+        level_note='Trusted: Verus+Z3; the 2-instruction x86 asm model (portable twin verified without it); std overflowing_add/sub specs; '
+                   'rustc compiling normalised and source text alike. Not covered: AVX2/AVX-512 packed fields, secp256k1, sqrt.',
         remainder=[
             'AVX2/AVX-512 packed fields (field/src/arch/x86_64/*): not compiled in the tested build; intrinsics outside both verifiers',
             'secp256k1 BigUint fields; sqrt / kth_root (BigUint)',
         ],
     ),
+}
+
+NOT_APPLICABLE = {
+    'C01': 'completeness of the whole prove->verify pipeline is a joint algebraic property of generic closure/rayon code (prover, quotient, FRI prover, generator scheduler); no per-function contract expresses it and the code is outside the Verus subset (DESIGN.md section 5)',
+    'C06': 'needs a denotational semantics of CircuitBuilder and a proof that ~2000 lines of builder code denote the native checks; no contract on an individual function expresses it (DESIGN.md section 5)',
+    'C10': 'every implementing function is closure/HashMap/iterator code outside the verifier subset and the property is the logUp soundness argument (DESIGN.md section 5)',
+    'C11': 'same as C06 for the STARK recursive verifier (DESIGN.md section 5)',
+    'C19': '2-safety property over thread schedules, hash seeds and SIMD builds; Verus has no rayon/ahash model, Kani has no threads and rejects AVX intrinsics (DESIGN.md section 5)',
 }
